@@ -7,6 +7,7 @@ package gv
 import (
 	"fmt"
 	"reflect"
+	"sync"
 
 	kmip "github.com/ovh/kmip-go"
 	"github.com/ovh/kmip-go/ttlv"
@@ -19,7 +20,13 @@ type hook func(g *gen, v reflect.Value, tag int, req bool)
 var hooks map[reflect.Type]hook
 var postHooks map[reflect.Type]func(g *gen, v reflect.Value)
 
-func init() {
+var hooksOnce sync.Once
+
+// initHooks builds the hook tables on first use (not in init: a universe that cannot be
+// expressed must surface as an error of the dumper, not as a panic at program start).
+func initHooks() { hooksOnce.Do(buildHooks) }
+
+func buildHooks() {
 	hooks = map[reflect.Type]hook{
 		reflect.TypeFor[kmip.RequestBatchItem]():  func(g *gen, v reflect.Value, _ int, _ bool) { g.requestItem(v, g.anyOp()) },
 		reflect.TypeFor[kmip.ResponseBatchItem](): func(g *gen, v reflect.Value, _ int, _ bool) { g.responseItem(v, g.anyOp()) },
